@@ -140,6 +140,30 @@ def stage_caches(ctx, cov):
         else:                             # one step beyond the bound: a seeded sample
             rnd.shuffle(xs)
             chosen += xs[: (20000 if thorough else 2500)]
+    # Transition coverage for calls that change nothing in the model (refusals: a duplicate insertion, removal of an
+    # absent vertex, a hull query): the generator prints one history per distinct model STATE, reached by a shortest
+    # path, so such calls never END a generated history. Every state history (all lengths below the bound; a sample at
+    # the bound) is extended by each insertion probe, a removal probe and a hull probe on object 1.
+    probes = [{"op": "Insert", "o": 1, "p": 1}, {"op": "InsertStats", "o": 1, "p": 2}, {"op": "Insert", "o": 1, "p": 2},
+              {"op": "Remove", "o": 1, "p": 1}]
+    base = []
+    for L in sorted(by_len):
+        xs = sorted(by_len[L])
+        if L < depth:
+            base += xs
+        elif L == depth:
+            ys = list(xs)
+            rnd.shuffle(ys)
+            base += ys if thorough else ys[:400]
+    ext = []
+    for h in base:
+        hl = json.loads(h)
+        if not any(x.get("op") == "Construct" and x.get("o") == 1 for x in hl):
+            continue
+        for pr in probes:
+            ext.append(json.dumps(hl + [pr] + ([{"op": "Insert", "o": 1, "p": pr["p"]}] if pr["op"] != "Remove" else [])))
+    cov["probe_extended_histories"] = len(ext)
+    chosen += ext
     ctx.log("Gen_Caches: %d histories (%s) in %.1fs" % (len(chosen), {k: len(v) for k, v in by_len.items()}, time.time() - t0))
     cov["generated_histories"] = len(chosen)
     hist = os.path.join(ctx.wdir, "histories.ndjson")
